@@ -75,6 +75,7 @@ def body(case):
         out.exc("validate-T-before", e)
         return out
     added = {}
+    n_adds = {}
     validated_after_multi = False
     out.evals = 0
     for step_i, op in enumerate(prog):
@@ -87,7 +88,8 @@ def body(case):
                 out.exc("add_schema-raised", e)
                 break
             added[ti] = added.get(ti, set()) | {(si, ri)}
-            new = [("added", RuleT(PathT(list(roots[ri].parts) + list(t.path.parts)), t.cond, t.cast, t.doc), (ri, t)) for t in t_sorted[ti]]
+            n_adds[(si, ti, ri)] = n_adds.get((si, ti, ri), 0) + 1
+            new = [("added", RuleT(PathT(list(roots[ri].parts) + list(t.path.parts)), t.cond, t.cast, t.doc), (ri, t, ti)) for t in t_sorted[ti]]
             cur = exp[si] + new
             exp[si] = sorted(cur, key=lambda x: len(x[1].path.parts))
             # --- S.rules == expected, element-wise
@@ -97,7 +99,7 @@ def body(case):
                     if kind == "own":
                         exp_objs.append(build.build_rule(term))
                     else:
-                        ri2, t = extra
+                        ri2, t, _ti = extra
                         # the re-rooted path: the root's part objects followed by the rule path's part
                         # objects (a path built from part objects is non-concrete, like the result of
                         # the library's '/'; the expectation deliberately does not call '/')
@@ -174,11 +176,11 @@ def body(case):
                     s_fail = sorted(
                         exact(tuple(f.path))
                         for rt, (kind, term, extra) in zip(vd.rule_tests, exp[si])
-                        if kind == "added" and extra[0] == ri and extra[1] in t_sorted[ti]
+                        if kind == "added" and extra[0] == ri and extra[2] == ti
                         for f in rt.failures
                     )
                     # several additions of the same (T, R) into S multiply the failures
-                    mult = sum(1 for kind, term, extra in exp[si] if kind == "added" and extra[0] == ri and extra[1] in t_sorted[ti]) // max(1, len(t_sorted[ti]))
+                    mult = n_adds.get((si, ti, ri), 1)
                     if s_fail != sorted(t_fail * max(1, mult)):
                         out.add("judges-as-before-plus-T", "metamorphic|T-at-root",
                                 f"step {step_i} {op}: T.validate(node at R) fails at {t_fail!r} (re-rooted) but S's added rules fail at {s_fail!r}"[:600])
@@ -190,4 +192,4 @@ def body(case):
 
 
 def tests(tier):
-    return [TestSpec("add-schema-history", gen_case, body, {"quick": 500, "thorough": 50000}, tape=4096)]
+    return [TestSpec("add-schema-history", gen_case, body, {"quick": 500, "thorough": 50000}, tape=4096, fuzz={"thorough": 15000})]
